@@ -1,3 +1,4 @@
+import MpsProps.Anchors.C04
 import MpsProofs.Blame
 import MpsProps.Src.SrcCmpKeygen
 import MpsProps.Src.SrcCmpSign
